@@ -27,7 +27,7 @@ import (
 // condition false first) the result is the same either way.
 
 const runtimeRule = "C15 run-time errors: 3..14 rows, one row (not first/last by key) holds MinInt64 in b, the chain carries " +
-	"Where(\"abs(b) >= ?\", 0) or Select(\"id, a, abs(b) AS b, s, c, d, k, m_n\") plus the usual conditions/orderings/Limit/Offset calls; " +
+	"Where(\"abs(b) >= ?\", 0) or Select(\"id, a, abs(b) AS b, s, c, d, brand, for_n\") plus the usual conditions/orderings/Limit/Offset calls; " +
 	"every read path must return an error or the complete reference result. non-trivial = the hand-driven Rows iteration of the " +
 	"chain delivered at least one row and then failed (the failure happens in mid iteration); distinct = canonical rendering of the case"
 
